@@ -12,17 +12,18 @@
                a `string`, an `int` (any sign), or a value of any other dynamic type, which every
                formatter reads through `fmt.Sprintf("%v", el)` only (`other r`, r = that text);
   * `IssueGo`  core.ZodIssue with Go paths; `Err = Option (List IssueGo)` (none = a nil `*ZodError`);
-  * the four formatters AS THE GO CODE COMPUTES THEM on such errors, in the two states of each of
-    the three places where /repo HEAD and the proposed fixes differ (`Cfg`):
+  * the four formatters AS THE GO CODE COMPUTES THEM on such errors.  Three places were repaired in
+    round 4b (c65f4c0 processIssueInTree, 6ff3a13 ToDotPath, e8b2b50 nil guards); both states are kept (`Cfg`):
         processIssueInTree   negative int  → `current.Items[element]` PANICS   | filed as the property "-n"
         processIssueInTree   other type    → element IGNORED (message filed at the enclosing node,
                                              or the level skipped)              | filed as the property "%v"
         utils.ToDotPath      other type    → `[%v]` raw (`int64(0)` prints like the index 0, a value
                                              whose text is `"a.b"` like the key a.b) | written as the key "%v"
         nil *ZodError        Flatten/Treeify/Format/PrettifyError dereference it: PANIC | reports of an empty error
-    The fixed state is the unsuffixed definition (`treeInsertGo`, `dotCharsGo`, …), the state of
-    /repo HEAD is `…Cur`; Proofs/C19Go.lean proves the full statements of the former, the partial
-    statements (+ witnesses) of the latter.
+    The code AS IT STANDS is the unsuffixed definition (`treeInsertGo`, `dotCharsGo`, …); the code
+    before the three commits is `…Cur` / `Cfg.head`, kept for the witness theorems.  Proofs/C19Go.lean
+    proves the full statements of the former, the partial statements (+ witnesses) of the latter.
+    The harness names `cfg=1111` in every op line: the driver is pinned to the code as it stands.
   * `El.pos`   the position an element denotes in the Flatten / Treeify / Format reports (READING
                DECISION, notes/C19.md): a string is a key, a non-negative int an index, anything else
                the key its `%v` text is — which is how FlattenError and FormatError have always keyed
@@ -140,7 +141,7 @@ def formatGo (is : List IssueGo) : Fmt := fmtIssuesGo [] is Fmt.empty
 
 /-! ## TreeifyError: the type switch of processIssueInTree -/
 
-/-- processIssueInTree WITH pending/C19-treeify-any-element.diff:
+/-- processIssueInTree AS IT STANDS (since c65f4c0):
     `case string` → property; `case int` → item when ≥ 0, else the property `%v`; `default` → the property `%v`. -/
 def treeInsertGo : List El → String → Tree → Tree
   | [], m, t => t.addErr m
@@ -164,22 +165,22 @@ def updItemM (f : Tree → Option Tree) : Nat → List Tree → Option (List Tre
   | n + 1, [] => (updItemM f n []).map (fun r' => Tree.empty :: r')
   | n + 1, t :: r => (updItemM f n r).map (fun r' => t :: r')
 
-/-- processIssueInTree AS IT STANDS at /repo HEAD (`none` = the call panics):
+/-- processIssueInTree BEFORE c65f4c0 (`none` = the call panics):
     `case string`, `case int` (no sign test: `current.Items[element]` with element < 0 is an index
     out of range), no `default` (the element is ignored: `current` stays; when it is the last
     element the message is appended to `current.Errors` all the same). -/
-def treeInsertCur : List El → String → Tree → Option Tree
+def treeInsertOld : List El → String → Tree → Option Tree
   | [], m, t => some (t.addErr m)
-  | .str k :: r, m, .node e p i => (updPropM k (treeInsertCur r m) p).map (fun p' => .node e p' i)
-  | .int (.ofNat n) :: r, m, .node e p i => (updItemM (treeInsertCur r m) n i).map (fun i' => .node e p i')
+  | .str k :: r, m, .node e p i => (updPropM k (treeInsertOld r m) p).map (fun p' => .node e p' i)
+  | .int (.ofNat n) :: r, m, .node e p i => (updItemM (treeInsertOld r m) n i).map (fun i' => .node e p i')
   | .int (.negSucc _) :: _, _, _ => none
-  | .other _ :: r, m, t => treeInsertCur r m t
+  | .other _ :: r, m, t => treeInsertOld r m t
 
-def treeifyCurFrom : List IssueGo → Tree → Option Tree
+def treeifyOldFrom : List IssueGo → Tree → Option Tree
   | [], t => some t
-  | i :: r, t => (treeInsertCur i.path i.msg t).bind (treeifyCurFrom r)
+  | i :: r, t => (treeInsertOld i.path i.msg t).bind (treeifyOldFrom r)
 
-def treeifyCur (is : List IssueGo) : Option Tree := treeifyCurFrom is Tree.empty
+def treeifyOld (is : List IssueGo) : Option Tree := treeifyOldFrom is Tree.empty
 
 /-! ## utils.ToDotPath on Go paths -/
 
@@ -188,15 +189,15 @@ def bracketed (cs : List Char) : List Char := '[' :: cs ++ [']']
 /-- the `case string` arm of ToDotPath (`first` = it is segment 0) -/
 def keyDot (first : Bool) (s : String) : List Char := segDotEsc first (.key s)
 
-/-- one segment of utils.ToDotPath WITH pending/C19-dotpath-any-element.diff: a value that is
+/-- one segment of utils.ToDotPath AS IT STANDS (since 6ff3a13): a value that is
     neither int nor string is written as the key its `%v` text is -/
 def segDotGo (first : Bool) : El → List Char
   | .int z => bracketed (itoa z).toList
   | .str s => keyDot first s
   | .other r => keyDot first r
 
-/-- one segment of utils.ToDotPath AS IT STANDS: `default: fmt.Fprintf(&b, "[%v]", v)` -/
-def segDotCur (first : Bool) : El → List Char
+/-- one segment of utils.ToDotPath BEFORE 6ff3a13: `default: fmt.Fprintf(&b, "[%v]", v)` -/
+def segDotOld (first : Bool) : El → List Char
   | .int z => bracketed (itoa z).toList
   | .str s => keyDot first s
   | .other r => bracketed r.toList
@@ -211,7 +212,7 @@ def dotCharsWith (seg : Bool → El → List Char) : List El → List Char
 
 def dotCharsGo : List El → List Char := dotCharsWith segDotGo
 def dotPathGo (p : List El) : String := String.ofList (dotCharsGo p)
-def dotPathCur (p : List El) : String := String.ofList (dotCharsWith segDotCur p)
+def dotPathOld (p : List El) : String := String.ofList (dotCharsWith segDotOld p)
 
 /-- what the pretty report can tell apart: an element of another type IS the key of its text -/
 def El.dnorm : El → El
@@ -227,12 +228,12 @@ def prettifyWith (dot : List El → String) (is : List IssueGo) : String :=
   "; ".intercalate (match is with | [] => ["Validation failed"] | is => is.map (prettySegWith dot))
 
 def prettifyGo : List IssueGo → String := prettifyWith dotPathGo
-def prettifyCur : List IssueGo → String := prettifyWith dotPathCur
+def prettifyOld : List IssueGo → String := prettifyWith dotPathOld
 
 /-! ## the four reports of an error, per state of the code -/
 
-/-- which of the pending fixes the working tree carries (probed by the harness on four fixed inputs,
-    named in every op line; `true` = fixed) -/
+/-- the state of the three repaired places (named in every op line; `true` = as it stands since
+    c65f4c0 / 6ff3a13 / e8b2b50, which is what the harness names: `cfg=1111`) -/
 structure Cfg where
   treeNeg : Bool     -- processIssueInTree: negative int filed as a property (false: panics)
   treeOther : Bool   -- processIssueInTree: `default` arm files the element as a property (false: ignored)
@@ -262,13 +263,13 @@ def treePathFor (c : Cfg) (p : List El) : List El :=
 
 def treeifyCfgFrom (c : Cfg) : List IssueGo → Tree → Option Tree
   | [], t => some t
-  | i :: r, t => (treeInsertCur (treePathFor c i.path) i.msg t).bind (treeifyCfgFrom c r)
+  | i :: r, t => (treeInsertOld (treePathFor c i.path) i.msg t).bind (treeifyCfgFrom c r)
 
 /-- TreeifyError in state `c` (`none` = panic).  `Cfg.fixed` gives `treeifyGo`, `Cfg.head` gives
-    `treeifyCur` (Proofs/C19Go.lean: `treeifyCfg_fixed`, `treeifyCfg_head`). -/
+    `treeifyOld` (Proofs/C19Go.lean: `treeifyCfg_fixed`, `treeifyCfg_head`). -/
 def treeifyCfg (c : Cfg) (is : List IssueGo) : Option Tree := treeifyCfgFrom c is Tree.empty
 
-def prettifyCfg (c : Cfg) : List IssueGo → String := if c.dotOther then prettifyGo else prettifyCur
+def prettifyCfg (c : Cfg) : List IssueGo → String := if c.dotOther then prettifyGo else prettifyOld
 
 structure Reports where
   flat : Option Flat
